@@ -50,6 +50,9 @@ def gen_universe(rng):
     def rid():
         return rng.randint(1, hi)
 
+    if rng.random() < 0.08:
+        # obstacles only, none with a positive id: the counter of generate_object_id then moves through zero
+        return [{"k": rng.choice(OBST_KINDS), "id": rng.randint(-4, 0)} for _ in range(rng.randint(2, 5))]
     U = []
     sign_ids = [rid() for _ in range(rng.randint(1, 3))]
     light_ids = [rid() for _ in range(rng.randint(1, 2))]
@@ -63,8 +66,11 @@ def gen_universe(rng):
         U.append({"k": "light", "id": t})
     for _ in range(rng.randint(1, 2)):
         U.append({"k": "inter", "id": rid(), "incs": [rng.randint(1, hi + 3) for _ in range(rng.randint(1, 3))]})
+    # obstacle ids may be any integer (the library's own tests use 0, -5, -50): one universe in three draws them from
+    # a range that contains zero and negative numbers
+    lo = rng.choice([1, 1, -1, -3])
     for _ in range(rng.randint(2, 4)):
-        U.append({"k": rng.choice(OBST_KINDS), "id": rid()})
+        U.append({"k": rng.choice(OBST_KINDS), "id": rid() if lo == 1 else rng.randint(lo, lo + 4)})
     return U
 
 
